@@ -833,3 +833,27 @@ Section HybShared.
       rewrite Hp. now destruct (hyb_seq_inv (firstn (Datatypes.S n) h)) as (_ & _ & _ & LE & _).
   Qed.
 End HybShared.
+
+(* ================================================================== the schedule replay of the correspondence
+   (Run_C14.conc_small: `turn` = what one pick of the harness' scheduler does) only visits reachable states, so
+   the outcomes compared with the real code are outcomes of the interleaving semantics the theorems are about *)
+Section Replay.
+  Variables S O : Type.
+  Variable code : O -> prog S.
+
+  Lemma settle_reachable : forall fuel i g0 g,
+    reachable code g0 g -> reachable code g0 (settle code fuel i g).
+  Proof.
+    induction fuel as [|f IH]; intros i g0 g Hr; cbn; auto.
+    destruct (at_call (g_cl g i) || finished (g_cl g i)); auto.
+    destruct (cstep code i g) as [g'|] eqn:E; auto. apply IH. eapply reach_step; eauto.
+  Qed.
+
+  Theorem turn_reachable : forall fuel i g0 g,
+    reachable code g0 g -> reachable code g0 (turn code fuel i g).
+  Proof.
+    intros fuel i g0 g Hr. unfold turn. destruct (at_call (g_cl g i)).
+    - destruct (cstep code i g) as [g'|] eqn:E; auto. apply settle_reachable. eapply reach_step; eauto.
+    - now apply settle_reachable.
+  Qed.
+End Replay.
